@@ -14,7 +14,7 @@
     length law (see the Examples at the end). *)
 From Coq Require Import List NArith ZArith Bool String Lia.
 From Verif Require Import Lib.Bytes Lib.Codec Cred.Sign Cred.Jwt Cred.PassCode
-  Cred.SignProofs Cred.JwtProofs Cred.PassCodeProofs Cred.CredGen Gen.CredConsts.
+  Cred.SignProofs Cred.JwtProofs Cred.PassCodeProofs Cred.UsageProofs Cred.CredGen Gen.CredConsts.
 Import ListNotations.
 Local Open Scope Z_scope.
 
@@ -502,6 +502,183 @@ Theorem C16_passcode_run_is_exec : forall expiry ops s evs,
 Proof. exact run_exec. Qed.
 Print Assumptions C16_passcode_run_is_exec.
 
+(** * Round 3: wrappers, "only what was issued" for every token kind, callers' parts, long-lived objects *)
+
+(** [Sessions.CheckState] / [CheckJSON]: live sessions of their kind, nothing [Check] refuses. *)
+Theorem C16_session_state_iff : forall K (mac : K -> bytes -> bytes),
+  mac_len_law mac -> mac_bytes_law mac ->
+  forall k now s,
+  sess_check_state mac k now s = true <->
+  exists e, is_int64 e /\ s = sign_hex mac k (le64 (u64_of_int e)) /\ now < e.
+Proof. exact @sess_check_state_iff. Qed.
+Print Assumptions C16_session_state_iff.
+
+Theorem C16_session_state_window : forall K (mac : K -> bytes -> bytes),
+  mac_len_law mac -> mac_bytes_law mac ->
+  forall k maxttl t0 now, is_int64 (t0 + maxttl) ->
+  sess_check_state mac k now (sess_new_state mac k maxttl t0) = (now <? t0 + maxttl).
+Proof. exact @sess_state_window. Qed.
+Print Assumptions C16_session_state_window.
+
+Theorem C16_session_json_iff : forall K (mac : K -> bytes -> bytes),
+  mac_len_law mac -> mac_bytes_law mac ->
+  forall json_ok k now s,
+  sess_check_json mac json_ok k now s = true <->
+  exists e d, is_int64 e /\ is_bytes d /\ s = sign_hex mac k (le64 (u64_of_int e) ++ d) /\ now < e /\ json_ok d = true.
+Proof. exact @sess_check_json_iff. Qed.
+Print Assumptions C16_session_json_iff.
+
+(** [authgate.Gate.CheckToken] with the caller's check callback. *)
+Theorem C16_gate_valid_sound : forall K (mac : K -> bytes -> bytes),
+  mac_len_law mac -> mac_bytes_law mac ->
+  forall cb k maxttl now s i,
+  gate_check_token mac cb k maxttl now s = Some i -> gi_valid i = true ->
+  exists e lvl, is_int64 e /\ is_bytes (gi_user i) /\
+    s = sign_hex mac k (le64 (u64_of_int e) ++ gi_user i) /\ now < e /\
+    cb (gi_user i) = Some lvl /\ 0 <= lvl /\ gi_level i = lvl.
+Proof. exact @gate_valid_sound. Qed.
+Print Assumptions C16_gate_valid_sound.
+
+Theorem C16_gate_refused_session_names_no_user : forall K (mac : K -> bytes -> bytes) k cb maxttl now s,
+  sess_check mac k now s = None -> gate_check_token mac cb k maxttl now s = Some (mkGI false [] 0 false).
+Proof. exact @gate_refused_session. Qed.
+Print Assumptions C16_gate_refused_session_names_no_user.
+
+Theorem C16_gate_callback_error_is_error : forall K (mac : K -> bytes -> bytes) cb k maxttl now s u left,
+  sess_check mac k now s = Some (u, left) -> cb u = None -> gate_check_token mac cb k maxttl now s = None.
+Proof. exact @gate_callback_error. Qed.
+Print Assumptions C16_gate_callback_error_is_error.
+
+Theorem C16_session_only_issued : forall K (mac : K -> bytes -> bytes),
+  mac_len_law mac -> mac_bytes_law mac ->
+  forall k issued now s d left,
+  (forall bs, hex_decode s = Some bs -> no_forgery mac k issued bs) ->
+  sess_check mac k now s = Some (d, left) ->
+  exists e, is_int64 e /\ In (le64 (u64_of_int e) ++ d) issued /\
+            s = sign_hex mac k (le64 (u64_of_int e) ++ d) /\ now < e.
+Proof. exact @session_only_issued. Qed.
+Print Assumptions C16_session_only_issued.
+
+(** Every text other than the issued session, whatever the edit, at every instant, through every entry point. *)
+Theorem C16_session_mutant_rejected : forall K (mac : K -> bytes -> bytes),
+  mac_len_law mac -> mac_bytes_law mac ->
+  forall json_ok k maxttl t0 ttl d now s,
+  let tok := fst (sess_new mac k maxttl t0 ttl d) in
+  (forall bs, hex_decode s = Some bs ->
+              no_forgery mac k [le64 (u64_of_int (t0 + eff_ttl maxttl ttl)) ++ d] bs) ->
+  s <> tok ->
+  sess_check mac k now s = None /\ sess_check_state mac k now s = false /\ sess_check_json mac json_ok k now s = false.
+Proof. exact @session_mutant_rejected. Qed.
+Print Assumptions C16_session_mutant_rejected.
+
+Theorem C16_time_token_only_issued : forall K (mac : K -> bytes -> bytes),
+  mac_len_law mac -> mac_bytes_law mac ->
+  forall k issued w now s,
+  (forall bs, hex_decode s = Some bs -> no_forgery mac k issued bs) ->
+  ts_check mac k w now s = true ->
+  exists t, is_int64 t /\ In (le64 (u64_of_int t)) issued /\ s = ts_token mac k t /\ now - Z.abs w < t < now + Z.abs w.
+Proof. exact @time_token_only_issued. Qed.
+Print Assumptions C16_time_token_only_issued.
+
+Theorem C16_time_token_mutant_rejected : forall K (mac : K -> bytes -> bytes),
+  mac_len_law mac -> mac_bytes_law mac ->
+  forall k t0 w now s,
+  (forall bs, hex_decode s = Some bs -> no_forgery mac k [le64 (u64_of_int t0)] bs) ->
+  s <> ts_token mac k t0 -> ts_check mac k w now s = false.
+Proof. exact @time_token_mutant_rejected. Qed.
+Print Assumptions C16_time_token_mutant_rejected.
+
+(** RSA time blocks: an accepted block is, field for field, an issued one. *)
+Theorem C16_rsa_time_only_issued : forall PK (H : bytes -> bytes) (rsa_verify : PK -> bytes -> bytes -> bool)
+  pk issued w now data hash sig,
+  (forall h s, rsa_verify pk h s = true -> In (h, s) issued) ->
+  rsa_time_check H rsa_verify pk w now data hash sig = None ->
+  In (hash, sig) issued /\ H data = hash /\ now - Z.abs w < int_of_u64 (de64 data) < now + Z.abs w.
+Proof. exact @rsa_time_only_issued. Qed.
+Print Assumptions C16_rsa_time_only_issued.
+
+Theorem C16_rsa_time_block_is_the_issued_one :
+  forall PK (H : bytes -> bytes) (rsa_verify : PK -> bytes -> bytes -> bool) pk d0 s0 w now data hash sig,
+  (forall h s, rsa_verify pk h s = true -> In (h, s) [(H d0, s0)]) ->
+  (forall d, H d = H d0 -> d = d0) ->
+  rsa_time_check H rsa_verify pk w now data hash sig = None ->
+  data = d0 /\ hash = H d0 /\ sig = s0.
+Proof. exact @rsa_time_block_is_the_issued_one. Qed.
+Print Assumptions C16_rsa_time_block_is_the_issued_one.
+
+(** [DecodeAndVerify] with any verifier the caller supplies, or none. *)
+Theorem C16_jwt_any_verifier_iff : forall parse_header parse_claims vres now tok t,
+  any_verify parse_header parse_claims b64_decode_canon vres now tok = JOk t <->
+  decode parse_header parse_claims b64_decode_canon tok = JOk t /\ vres = None /\ check_time (t_claims t) now = None.
+Proof. exact any_verify_iff. Qed.
+Print Assumptions C16_jwt_any_verifier_iff.
+
+(** A card whose identity cannot be fetched (error, with or without a value) verifies nothing. *)
+Theorem C16_rs256_fetch_failure_rejected :
+  forall parse_header parse_claims M RK (parse_key : M -> option RK) rsa_verify user host now tok,
+  jerr_of (self_verify_fetch parse_header parse_claims b64_decode_canon parse_key rsa_verify None user host now tok).
+Proof. exact fetch_failure_rejected. Qed.
+Print Assumptions C16_rs256_fetch_failure_rejected.
+
+(** RS256: what verifies is, character for character, a token issued with the
+    key its header names ([rsa_unforgeable]: the premise a signature is used for). *)
+Theorem C16_rs256_only_issued :
+  forall parse_header parse_claims M RK (parse_key : M -> option RK) rsa_verify
+         (card : list (@pubkey M)) issued now tok t,
+  (forall k rk, In k card -> parse_key (pk_mat k) = Some rk -> rsa_unforgeable rsa_verify rk issued) ->
+  rs_verify parse_header parse_claims b64_decode_canon parse_key rsa_verify card now tok = JOk t ->
+  In tok (map token_text issued).
+Proof. exact rs256_only_issued. Qed.
+Print Assumptions C16_rs256_only_issued.
+
+Theorem C16_rs256_mutant_rejected :
+  forall parse_header parse_claims M RK (parse_key : M -> option RK) rsa_verify
+         (card : list (@pubkey M)) p0 s0 now tok,
+  (forall k rk, In k card -> parse_key (pk_mat k) = Some rk -> rsa_unforgeable rsa_verify rk [(p0, s0)]) ->
+  tok <> p0 ++ dot :: b64_encode s0 ->
+  jerr_of (rs_verify parse_header parse_claims b64_decode_canon parse_key rsa_verify card now tok).
+Proof. exact rs256_mutant_rejected. Qed.
+Print Assumptions C16_rs256_mutant_rejected.
+
+(** One verifier, many tokens, a card that changes (keys added, removed, expired,
+    replaced under the same id): every verification is a function of the token,
+    the card in force at that moment and the clock. *)
+Theorem C16_verify_depends_only_on_current_card :
+  forall parse_header parse_claims M RK (parse_key : M -> option RK) rsa_verify (card : list (@pubkey M)) h,
+  verifier_run parse_header parse_claims parse_key rsa_verify card h =
+  map (fun v => rs_verify parse_header parse_claims b64_decode_canon parse_key rsa_verify (fst (fst v)) (snd (fst v)) (snd v))
+      (verifications card h).
+Proof. exact verify_depends_only_on_current_card. Qed.
+Print Assumptions C16_verify_depends_only_on_current_card.
+
+Theorem C16_history_accept_key_published_now :
+  forall parse_header parse_claims M RK (parse_key : M -> option RK) rsa_verify (card : list (@pubkey M)) h c now tok t,
+  In ((c, now, tok), JOk t)
+     (combine (verifications card h) (verifier_run parse_header parse_claims parse_key rsa_verify card h)) ->
+  exists k rk pre post,
+    c = pre ++ k :: post /\ Forall (fun k' => pk_id k' <> h_kid (t_header t)) pre /\
+    pk_id k = h_kid (t_header t) /\ pk_type k = key_type_rsa /\ key_valid k now = None /\
+    parse_key (pk_mat k) = Some rk /\ rsa_verify rk (t_payload t) (t_sig t) = true.
+Proof. exact history_accept_key_published_now. Qed.
+Print Assumptions C16_history_accept_key_published_now.
+
+(** One object, many calls: the objects hold configuration only (extracted
+    fields and receiver writes), so a call's result in any history of calls on
+    one object is that call's result alone. *)
+Theorem C16_objects_stateless : objects_stateless gen_object_fields gen_receiver_writes.
+Proof. exact gen_objects_stateless. Qed.
+Print Assumptions C16_objects_stateless.
+
+Theorem C16_object_history_pointwise : forall Cfg Call Res (do_call : Cfg -> Call -> Res) cfg calls i c r0,
+  nth_error calls i = Some c -> nth i (run_history do_call cfg calls) r0 = do_call cfg c.
+Proof. exact @history_pointwise. Qed.
+Print Assumptions C16_object_history_pointwise.
+
+Theorem C16_object_history_all : forall Cfg Call Res (do_call : Cfg -> Call -> Res) (P : Call -> Res -> Prop) cfg calls,
+  (forall c, P c (do_call cfg c)) -> Forall2 P calls (run_history do_call cfg calls).
+Proof. exact @history_all. Qed.
+Print Assumptions C16_object_history_all.
+
 (** * The source still has the shape the models were written against *)
 
 Theorem C16_source_frozen :
@@ -665,3 +842,50 @@ Example C16_passcode_legacy_refuted :
   last (map fst (run_with false 600000000000 init_state fifteen_wrong_then_right)) 9%N = 0%N /\
   last (map fst (run 600000000000 init_state fifteen_wrong_then_right)) 9%N = 4%N.
 Proof. exact legacy_model_refuted. Qed.
+
+(** Round 3 non-vacuity: a state token on the toy MAC, a session with payload is
+    not a state, JSON kinds; the RSA premise is satisfiable and bites. *)
+Example C16_state_and_json_boundary :
+  let st := sess_new_state toy_mac 7%N 1000 5000 in
+  let '(tok, _) := sess_new toy_mac 7%N 1000 5000 0 [65]%N in
+  sess_check_state toy_mac 7%N 5999 st = true /\
+  sess_check_state toy_mac 7%N 6000 st = false /\
+  sess_check_state toy_mac 7%N 5999 tok = false /\
+  sess_check_json toy_mac (fun d => beq_bytes d [65]%N) 7%N 5999 tok = true /\
+  sess_check_json toy_mac (fun d => beq_bytes d [65]%N) 7%N 6000 tok = false /\
+  sess_check_json toy_mac (fun d => beq_bytes d [65]%N) 7%N 5999 st = false.
+Proof. vm_compute. repeat split. Qed.
+
+Definition toy_rsa (rk : N) (p s : bytes) : bool := (rk =? 3)%N && beq_bytes p [104; 46; 99]%N && beq_bytes s [9]%N.
+
+Example C16_rsa_premise_satisfiable :
+  rsa_unforgeable toy_rsa 3%N [([104; 46; 99]%N, [9]%N)] /\
+  toy_rsa 3%N [104; 46; 99]%N [9]%N = true /\
+  any_verify (fun _ => Some (mkH alg_rs256 typ_jwt [])) (fun _ => Some (mkC [] [] [] 100 0 [] [])) b64_decode_canon
+             (Some EWrongSig) 5 (jwt_sign toy_mac 7%N [123; 125]%N [1; 2; 3]%N) = JErr EWrongSig /\
+  (exists t, any_verify (fun _ => Some (mkH alg_rs256 typ_jwt [])) (fun _ => Some (mkC [] [] [] 100 0 [] [])) b64_decode_canon
+             None 5 (jwt_sign toy_mac 7%N [123; 125]%N [1; 2; 3]%N) = JOk t).
+Proof.
+  split; [|split; [reflexivity|split; [vm_compute; reflexivity|vm_compute; eexists; reflexivity]]].
+  intros p s E. unfold toy_rsa in E.
+  apply andb_prop in E. destruct E as [E Es]. apply andb_prop in E. destruct E as [_ Ep].
+  apply beq_bytes_spec in Ep, Es. subst. left. reflexivity.
+Qed.
+
+(** A verifier that remembers the parsed key of an id is refuted by a history:
+    the card replaces the key published under id "m"; the token signed by the
+    retired key is still accepted by the caching verifier, and refused by the
+    model of the code (which consults the card every time). *)
+Example C16_verifier_with_id_cache_refuted :
+  let ph := fun _ : bytes => Some (mkH alg_rs256 typ_jwt [109]%N) in
+  let pc := fun _ : bytes => Some (mkC [] [] [] 100 0 [] []) in
+  let pk := fun m : N => Some m in
+  let rv := fun (rk : N) (_ s : bytes) => beq_bytes s [rk] in
+  let tok := jwt_text [123; 125]%N [1; 2; 3]%N ++ dot :: b64_encode [1]%N in
+  let card1 := [mkPK [109]%N key_type_rsa alg_rs256 100 0 1%N] in
+  let card2 := [mkPK [109]%N key_type_rsa alg_rs256 100 0 2%N] in
+  let h := [VVerify 5 tok; VSetCard card2; VVerify 5 tok] in
+  let is_ok r := match r with JOk _ => true | JErr _ => false end in
+  map is_ok (verifier_run ph pc pk rv card1 h) = [true; false] /\
+  map is_ok (cached_run ph pc pk rv [] card1 h) = [true; true].
+Proof. vm_compute. split; reflexivity. Qed.
